@@ -133,6 +133,16 @@ def solve_all(f, X):
                 L = f - gamma
                 m = L.m
                 covers = {i: np.array([j != i for j in range(m)], dtype=bool) for i in range(m)}
+                # per-constraint overrides while the module-level defaults hold the OPPOSITE of every flag: the constraint's own
+                # settings decide, at construction and at compile time
+                for ker in (False, True):
+                    st_ = sagecorr.full_settings({'kernel_basis': ker})
+                    with sagecorr.adversarial_globals(st_):
+                        try:
+                            con = cl.PrimalSageCone(L.c, L.alpha, None, 'override', settings=dict(st_))
+                            out[('primal', 'override', ker)] = cl.Problem(cl.MAX, gamma, [con]).solve(verbose=False)
+                        except RuntimeError as e:
+                            out[('primal', 'override', ker)] = ('construction-error', str(e)[:50])
                 for feq in (False, True):
                     # with full covers every term lies in a cover, so forcing equality is without loss of generality
                     con = cl.PrimalSageCone(L.c, L.alpha, None, 'full', covers={i: cv.copy() for i, cv in covers.items()},
@@ -284,6 +294,23 @@ def probe_kernel_scale():
                     if st == 'solved' and val > -0.5625 + 1e-4:
                         return ('primal SAGE bound of 1 - 2.5 exp(%g x) + exp(%g x) with kernel_basis=%s is %r, above the minimum -0.5625'
                                 % (s_, 2 * s_, kb, val))
+            # exponents of very different scales: a small but nonzero direction is not a kernel direction
+            for alpha, cc in (([[0, 0], [2000, 0], [1000, 0.0005]], [1, 1, -2]), ([[0, 0], [4, 0], [2, 0.001], [0, 3]], [1, 1, -2, 1]),
+                              ([[0, 0], [2000, 0], [1000, 0.5]], [1, 1, -2]), ([[0, 0], [2, 0], [1, 0.000001]], [3, 1, -2])):
+                f = so.Signomial(np.array(alpha, dtype=float), np.array(cc, dtype=float))
+                vals = {}
+                for kb in (False, True):
+                    cl.kernel_basis_age_witnesses(kb)
+                    try:
+                        st, val = ss.sig_relaxation(f, form='primal').solve(verbose=False)
+                    except RuntimeError:
+                        st, val = 'solved', -math.inf       # refused as infeasible at construction
+                    vals[kb] = (st, val)
+                a, b = vals[False], vals[True]
+                if a[0] == b[0] == 'solved' and (math.isfinite(a[1]) != math.isfinite(b[1]) or
+                                                 (math.isfinite(a[1]) and abs(a[1] - b[1]) > 1e-4 * (1 + abs(a[1])))):
+                    return ('primal SAGE bound of the signomial with exponents %s, coefficients %s is %r with kernel_basis=False and %r with '
+                            'kernel_basis=True' % (alpha, cc, a[1], b[1]))
     finally:
         sc.SETTINGS.clear()
         sc.SETTINGS.update(saved)
